@@ -348,6 +348,15 @@ func flowCampaign(c *vf.Ctx, prop string, cases []*flowCase, nontrivial func(*fl
 					c.Violate(prop+":"+f.Sig, f.What+" (observed before the pipestance stalled)", replayOf(res, f))
 				}
 			}
+			if prop == "C11" && res.report != nil {
+				// nor do misrouted or dropped journal notifications (they are
+				// the usual reason for such a stall)
+				for _, f := range res.report.For("C11") {
+					if strings.HasPrefix(f.Sig, "journal-") {
+						c.Violate(prop+":"+f.Sig, f.What+" (observed before the pipestance stalled)", replayOf(res, f))
+					}
+				}
+			}
 			out := res.run.Output
 			if i := strings.Index(out, "SIGQUIT"); i > 0 {
 				out = out[:i]
